@@ -1,4 +1,5 @@
 import CppUModel.Proofs.Diagnostics
+import CppUModel.Model.DiagnosticsCode
 /-!
 # C14 — diagnostics are safe to build, bounded, and say what happened
 
@@ -260,6 +261,31 @@ theorem notice_iff_entries_dropped (o : OutBuf) (leaks : List Leak) (hne : leaks
       have := congrArg List.length heq
       rw [List.length_take] at this; omega
     · right; omega
+
+/-- converse of the truncation in `add_never_writes_past_limit`: a formatted piece that fits below the write limit is
+    appended COMPLETELY and the fill position advances by its whole length (nothing is cut unless it has to be) -/
+theorem add_complete_when_it_fits (b : Buf) (s : Bytes) (h : b.filled + s.length ≤ b.limit) :
+    (b.add s).text = b.text ++ s ∧ (b.add s).filled = b.filled + s.length := by
+  unfold Buf.add
+  by_cases hge : b.filled ≥ b.limit
+  · have : s = [] := List.eq_nil_of_length_eq_zero (by omega)
+    subst this; simp [hge]
+  · have h1 : ¬ (b.filled + s.length > b.limit) := by omega
+    have h2 : s.take (b.limit - b.filled) = s := List.take_of_length_le (by omega)
+    simp [hge, h1, h2]
+
+/-- converse of `notice_iff_entries_dropped`: when the complete listing is shorter than the lowered limit, the report
+    begun on a cleared buffer lists EVERY leak completely, carries no too-many notice, and ends with the true total
+    (and the malloc note when due) -/
+theorem report_complete_when_listing_fits (o : OutBuf) (leaks : List Leak) (hne : leaks ≠ [])
+    (hf : o.buf.filled = 0) (ht : o.buf.text = []) (hn : leaks.length < 2147483648)
+    (hfit : (fullListing leaks).length < listLimit) :
+    (o.report leaks).buf.text =
+      fullListing leaks ++ footerLine leaks.length ++ (if anyMalloc leaks then mallocWarningText else []) := by
+  rw [report_total_true_when_cleared o leaks hf ht hn]
+  have h1 : ¬ (listLimit ≤ (fullListing leaks).length) := by omega
+  have h2 : (fullListing leaks).take listLimit = fullListing leaks := List.take_of_length_le (by omega)
+  simp [reportText, hne, h1, h2]
 
 /-! ### the real array: terminated, canary untouched -/
 
@@ -1037,5 +1063,586 @@ example : listLimit ≤ (fullListing [bigLeak]).length := by decide
 example : (OutBuf.init.run [Op.misuse { message := longName, allocFile := [], allocLine := 0, allocSize := 0, allocName := [],
                                         freeFile := [], freeLine := 0, freeName := [] }, Op.start]).buf.WF :=
   wf_run _ _ Buf.wf_init
+
+
+/-! ## (T) the regenerated code
+
+`Gen/DiagnosticsBuffer.lean` is produced on every run by `translate/extract_diagbuf.py` from the clang AST of
+`src/CppUTest/MemoryLeakDetector.cpp`.  The theorems of this section state that the regenerated definitions ARE
+the hand-written model the theorems above speak about, and re-prove the buffer bounds directly on the regenerated
+`size_t` / `int` arithmetic (for every value `vsnprintf` can return and every 64-bit limit). -/
+
+section Regenerated
+open Gen.DiagBuf Diag.Code
+
+/-- the two counters of a model buffer as the `size_t` members -/
+def Buf.toSt (b : Buf) : St := { filled := BitVec.ofNat 64 b.filled, limit := BitVec.ofNat 64 b.limit }
+
+theorem bv_ule (a b : Nat) (ha : a < 2 ^ 64) (hb : b < 2 ^ 64) :
+    BitVec.ule (BitVec.ofNat 64 a) (BitVec.ofNat 64 b) = decide (a ≤ b) := by
+  simp [BitVec.ule, BitVec.toNat_ofNat, Nat.mod_eq_of_lt ha, Nat.mod_eq_of_lt hb]
+
+theorem bv_ult (a b : Nat) (ha : a < 2 ^ 64) (hb : b < 2 ^ 64) :
+    BitVec.ult (BitVec.ofNat 64 a) (BitVec.ofNat 64 b) = decide (a < b) := by
+  simp [BitVec.ult, BitVec.toNat_ofNat, Nat.mod_eq_of_lt ha, Nat.mod_eq_of_lt hb]
+
+theorem bv_sub (a b : Nat) (h : b ≤ a) (ha : a < 2 ^ 64) :
+    BitVec.ofNat 64 a - BitVec.ofNat 64 b = BitVec.ofNat 64 (a - b) := by
+  apply BitVec.eq_of_toNat_eq
+  simp only [BitVec.toNat_sub, BitVec.toNat_ofNat]
+  rw [Nat.mod_eq_of_lt ha, Nat.mod_eq_of_lt (show b < 2 ^ 64 by omega), Nat.mod_eq_of_lt (show a - b < 2 ^ 64 by omega)]
+  omega
+
+theorem bv_add (a b : Nat) : BitVec.ofNat 64 a + BitVec.ofNat 64 b = BitVec.ofNat 64 (a + b) := by
+  apply BitVec.eq_of_toNat_eq
+  simp [BitVec.toNat_add, BitVec.toNat_ofNat]
+
+theorem bv_count_ext (n : Nat) (h : n < 2 ^ 31) : (BitVec.ofNat 32 n).signExtend 64 = BitVec.ofNat 64 n := by
+  have hm : (BitVec.ofNat 32 n).msb = false := by
+    simp [BitVec.msb_eq_decide, BitVec.toNat_ofNat]; omega
+  rw [BitVec.signExtend_eq_setWidth_of_msb_false hm]
+  apply BitVec.eq_of_toNat_eq
+  simp [BitVec.toNat_setWidth, BitVec.toNat_ofNat]; omega
+
+theorem bv_count_pos (n : Nat) (h : n < 2 ^ 31) : BitVec.slt (0#32) (BitVec.ofNat 32 n) = decide (0 < n) := by
+  have h2 : (BitVec.ofNat 32 n).toInt = (n : Int) := by
+    rw [BitVec.toInt_eq_toNat_of_lt] <;> simp [BitVec.toNat_ofNat] <;> omega
+  simp [BitVec.slt_eq_decide, h2]
+
+/-- `SIMPLE_STRING_BUFFER_LEN-1` as the code computes it (`int` arithmetic, converted to `size_t`) -/
+theorem capBV : (((BitVec.ofNat 32 bufferLen) - (1#32)).signExtend 64) = BitVec.ofNat 64 cap := by decide
+
+theorem one_ext : ((1#32).signExtend 64) = 1#64 := by decide
+
+/-- the regenerated constructor: counters `(0, 4095)`, `buffer_[0] = 0`, canary initialised -/
+theorem gen_ctor_eq_model :
+    ctor = (Buf.init.toSt, [Eff.storeBuf (0#32) (0#8), Eff.call "verifInitCanary"]) := by decide
+
+/-- the regenerated `clear` is `Buf.clear` on the counters and stores the terminator at index 0 -/
+theorem gen_clear_eq_model (b : Buf) : Gen.DiagBuf.clear b.toSt = (b.clear.toSt, [Eff.storeBuf (0#32) (0#8)]) := by
+  have : ((0#32).signExtend 64) = BitVec.ofNat 64 0 := by decide
+  simp [Gen.DiagBuf.clear, Buf.toSt, Buf.clear, this]
+
+/-- the regenerated `resetWriteLimit` is `Buf.resetWriteLimit` -/
+theorem gen_resetWriteLimit_eq_model (b : Buf) : resetWriteLimit b.toSt = (b.resetWriteLimit.toSt, []) := by
+  simp [resetWriteLimit, Buf.toSt, Buf.resetWriteLimit, capBV]
+
+/-- the regenerated `setWriteLimit` is `Buf.setWriteLimit`, for every `size_t` argument -/
+theorem gen_setWriteLimit_eq_model (b : Buf) (n : Nat) (hn : n < 2 ^ 64) :
+    setWriteLimit b.toSt (BitVec.ofNat 64 n) = ((b.setWriteLimit n).toSt, []) := by
+  simp only [setWriteLimit, Buf.toSt, Buf.setWriteLimit, capBV]
+  have hc : cap = 4095 := by decide
+  have hlt : (BitVec.ofNat 64 cap).ult (BitVec.ofNat 64 n) = decide (n > cap) := by
+    simp [BitVec.ult, BitVec.toNat_ofNat, hc, Nat.mod_eq_of_lt hn]
+  rw [hlt]
+  by_cases h : n > cap <;> simp [h]
+
+/-- the regenerated `reachedItsCapacity` is `Buf.reached` -/
+theorem gen_reached_eq_model (b : Buf) (hf : b.filled < 2 ^ 64) (hl : b.limit < 2 ^ 64) :
+    reachedItsCapacity b.toSt = b.reached := by
+  simp [reachedItsCapacity, Buf.toSt, Buf.reached, bv_ule _ _ hl hf]
+
+/-- The regenerated `add` is `Buf.add` on the counters when `vsnprintf` returns the length of the formatted text,
+    and it calls `vsnprintf(buffer_ + filled, limit - filled + 1, …)` — the call `MemBuf.add` models — exactly when
+    the fill position is below the limit. -/
+theorem gen_add_eq_model (b : Buf) (s : Bytes) (hf : b.filled < 2 ^ 63) (hl : b.limit < 2 ^ 63) (hs : s.length < 2 ^ 31) :
+    Gen.DiagBuf.add b.toSt (BitVec.ofNat 32 s.length) =
+      ((b.add s).toSt, if b.filled ≥ b.limit then []
+                       else [Eff.vsnprintf (BitVec.ofNat 64 b.filled) (BitVec.ofNat 64 (b.limit - b.filled + 1))]) := by
+  have e1 : ((1#32).signExtend 64) = BitVec.ofNat 64 1 := by decide
+  simp only [Gen.DiagBuf.add, Buf.toSt, Buf.add, e1, bv_count_ext _ hs, bv_count_pos _ hs, bv_add]
+  rw [bv_ule _ _ (by omega) (by omega)]
+  by_cases h : b.filled ≥ b.limit
+  · simp [h]
+  · have h' : ¬ b.limit ≤ b.filled := h
+    simp only [h', decide_false, Bool.false_eq_true, if_false]
+    rw [bv_sub _ _ (by omega) (by omega), bv_add]
+    by_cases h0 : 0 < s.length
+    · simp only [h0, decide_true, if_true]
+      rw [bv_ult _ _ (by omega) (by omega)]
+      by_cases h2 : b.filled + s.length > b.limit
+      · simp [h2]
+      · simp [h2]
+    · have : s.length = 0 := by omega
+      simp only [this, Nat.lt_irrefl, decide_false, Bool.false_eq_true, if_false, Nat.add_zero]
+      rw [bv_ult _ _ (by omega) (by omega)]
+      have h3 : ¬ b.limit < b.filled := by omega
+      simp [h3]
+
+/-- `gen_add_safe`: the bounds of `add`, proved on the regenerated arithmetic itself, for EVERY `int` that
+    `vsnprintf` may return (negative = error, or up to 2^31-1) and every state with both counters at most 4095:
+    the limit is unchanged, the fill position never decreases, never passes `max filled limit`, stays at most 4095,
+    is unchanged when the result is not positive; and the one `vsnprintf` call gets `buffer_ + filled` and a size
+    with `filled + size ≤ 4096`, so whatever it writes (at most `size` bytes) stays inside `buffer_`. -/
+theorem gen_add_safe (st : St) (count : BitVec 32) (hf : st.filled.toNat ≤ cap) (hl : st.limit.toNat ≤ cap) :
+    (Gen.DiagBuf.add st count).1.limit = st.limit
+    ∧ (Gen.DiagBuf.add st count).1.filled.toNat ≤ cap
+    ∧ st.filled.toNat ≤ (Gen.DiagBuf.add st count).1.filled.toNat
+    ∧ (Gen.DiagBuf.add st count).1.filled.toNat ≤ max st.filled.toNat st.limit.toNat
+    ∧ (BitVec.sle count 0#32 → (Gen.DiagBuf.add st count).1.filled = st.filled)
+    ∧ ∀ off size, Eff.vsnprintf off size ∈ (Gen.DiagBuf.add st count).2 →
+        off = st.filled ∧ st.filled.toNat < st.limit.toNat ∧ size.toNat = st.limit.toNat - st.filled.toNat + 1
+        ∧ off.toNat + size.toNat ≤ bufferLen := by
+  have hc : cap = 4095 := by decide
+  have hb : bufferLen = 4096 := by decide
+  rw [hc] at hf hl
+  obtain ⟨f, l⟩ := st
+  simp only at hf hl
+  simp only [Gen.DiagBuf.add, one_ext]
+  by_cases h1 : BitVec.ule l f
+  · simp only [h1, if_true]
+    have : l.toNat ≤ f.toNat := by simpa [BitVec.ule] using h1
+    simp; omega
+  · simp only [h1, Bool.false_eq_true, if_false]
+    have h1' : f.toNat < l.toNat := by
+      have : ¬ l.toNat ≤ f.toNat := by simpa [BitVec.ule] using h1
+      omega
+    have hsub : (l - f).toNat = l.toNat - f.toNat := by
+      rw [BitVec.toNat_sub]; omega
+    by_cases h2 : BitVec.slt (0#32) count
+    · have hpos : 0 < count.toInt := by simpa [BitVec.slt_eq_decide] using h2
+      have hmsb : count.msb = false := by
+        rcases hm : count.msb with _ | _
+        · rfl
+        · have := BitVec.toInt_neg_of_msb_true hm; omega
+      have hext : (count.signExtend 64).toNat = count.toNat := by
+        rw [BitVec.signExtend_eq_setWidth_of_msb_false hmsb]; simp [BitVec.toNat_setWidth]; omega
+      have hcn : count.toNat < 2 ^ 31 := by
+        have := BitVec.msb_eq_decide count; simp [hmsb] at this; omega
+      have hadd : (f + count.signExtend 64).toNat = f.toNat + count.toNat := by
+        rw [BitVec.toNat_add, hext]; omega
+      have hsle : ¬ (BitVec.sle count 0#32) := by
+        simp [BitVec.sle_eq_decide]; omega
+      simp only [h2, if_true]
+      by_cases h3 : BitVec.ult l (f + count.signExtend 64)
+      · simp only [h3, if_true]
+        refine ⟨trivial, by omega, by omega, by omega, fun h => absurd h hsle, ?_⟩
+        intro off size hmem
+        simp only [List.mem_singleton, Eff.vsnprintf.injEq] at hmem
+        obtain ⟨rfl, rfl⟩ := hmem
+        refine ⟨rfl, h1', ?_, ?_⟩ <;> rw [BitVec.toNat_add, hsub] <;> simp <;> omega
+      · have h3' : ¬ l.toNat < f.toNat + count.toNat := by
+          have : ¬ l.toNat < (f + count.signExtend 64).toNat := by simpa [BitVec.ult] using h3
+          rwa [hadd] at this
+        simp only [h3, Bool.false_eq_true, if_false]
+        refine ⟨trivial, by omega, by omega, by omega, fun h => absurd h hsle, ?_⟩
+        intro off size hmem
+        simp only [List.mem_singleton, Eff.vsnprintf.injEq] at hmem
+        obtain ⟨rfl, rfl⟩ := hmem
+        refine ⟨rfl, h1', ?_, ?_⟩ <;> rw [BitVec.toNat_add, hsub] <;> simp <;> omega
+    · simp only [h2, Bool.false_eq_true, if_false]
+      have h3 : ¬ BitVec.ult l f := by simp [BitVec.ult]; omega
+      simp only [h3, Bool.false_eq_true, if_false]
+      refine ⟨trivial, by omega, by omega, by omega, fun _ => trivial, ?_⟩
+      intro off size hmem
+      simp only [List.mem_singleton, Eff.vsnprintf.injEq] at hmem
+      obtain ⟨rfl, rfl⟩ := hmem
+      refine ⟨rfl, h1', ?_, ?_⟩ <;> rw [BitVec.toNat_add, hsub] <;> simp <;> omega
+
+/-- an operation on a standalone buffer with the raw machine values: the `int` that `vsnprintf` returned, the
+    `size_t` limit -/
+inductive GOp where
+  | add (count : BitVec 32)
+  | setLimit (n : BitVec 64)
+  | resetLimit
+  | clear
+deriving Repr, DecidableEq
+
+/-- one operation executed by the regenerated functions; the effects are accumulated -/
+def gstep (r : St × List Eff) : GOp → St × List Eff
+  | .add c => ((Gen.DiagBuf.add r.1 c).1, r.2 ++ (Gen.DiagBuf.add r.1 c).2)
+  | .setLimit n => ((setWriteLimit r.1 n).1, r.2 ++ (setWriteLimit r.1 n).2)
+  | .resetLimit => ((resetWriteLimit r.1).1, r.2 ++ (resetWriteLimit r.1).2)
+  | .clear => ((Gen.DiagBuf.clear r.1).1, r.2 ++ (Gen.DiagBuf.clear r.1).2)
+
+/-- every store and every `vsnprintf` window recorded so far lies inside `buffer_` -/
+def EffsInside (es : List Eff) : Prop :=
+  ∀ e ∈ es, match e with
+    | .vsnprintf off size => off.toNat + size.toNat ≤ bufferLen
+    | .storeBuf idx _ => idx.toNat < bufferLen
+    | .call _ => True
+
+theorem gstep_safe (r : St × List Eff) (op : GOp)
+    (h : r.1.filled.toNat ≤ cap ∧ r.1.limit.toNat ≤ cap ∧ EffsInside r.2) :
+    (gstep r op).1.filled.toNat ≤ cap ∧ (gstep r op).1.limit.toNat ≤ cap ∧ EffsInside (gstep r op).2 := by
+  obtain ⟨hf, hl, he⟩ := h
+  have hc : cap = 4095 := by decide
+  have hb : bufferLen = 4096 := by decide
+  cases op with
+  | add c =>
+    obtain ⟨g1, g2, _, _, _, g6⟩ := gen_add_safe r.1 c hf hl
+    refine ⟨g2, by simp only [gstep]; rw [g1]; exact hl, ?_⟩
+    intro e hmem
+    simp only [gstep, List.mem_append] at hmem
+    rcases hmem with hmem | hmem
+    · exact he e hmem
+    · cases e with
+      | vsnprintf off size => exact (g6 off size hmem).2.2.2
+      | storeBuf idx v =>
+        exfalso
+        simp only [Gen.DiagBuf.add] at hmem
+        split at hmem <;> simp at hmem
+      | call _ => trivial
+  | setLimit n =>
+    refine ⟨by simpa [gstep, setWriteLimit] using hf, ?_, ?_⟩
+    · simp only [gstep, setWriteLimit, capBV]
+      split
+      · simp [BitVec.toNat_ofNat, hc]
+      · rename_i hlt
+        have : ¬ (BitVec.ofNat 64 cap).toNat < n.toNat := by simpa [BitVec.ult] using hlt
+        simp [BitVec.toNat_ofNat, hc] at this; omega
+    · intro e hmem; simp only [gstep, setWriteLimit, List.append_nil] at hmem; exact he e hmem
+  | resetLimit =>
+    refine ⟨by simpa [gstep, resetWriteLimit] using hf, ?_, ?_⟩
+    · simp [gstep, resetWriteLimit, capBV, BitVec.toNat_ofNat, hc]
+    · intro e hmem; simp only [gstep, resetWriteLimit, List.append_nil] at hmem; exact he e hmem
+  | clear =>
+    refine ⟨by simp [gstep, Gen.DiagBuf.clear], by simpa [gstep, Gen.DiagBuf.clear] using hl, ?_⟩
+    intro e hmem
+    simp only [gstep, Gen.DiagBuf.clear, List.mem_append, List.mem_singleton] at hmem
+    rcases hmem with hmem | hmem
+    · exact he e hmem
+    · subst hmem; simp [hb]
+
+/-- `regenerated_history_memory_safe`: for EVERY history of `add` (any `int` result of `vsnprintf`),
+    `setWriteLimit` (any 64-bit value), `resetWriteLimit` and `clear` on a freshly constructed buffer, executed by
+    the functions regenerated from the source: both counters stay at most 4095, and every store to `buffer_` and
+    every window handed to `vsnprintf` lies inside the 4096-byte array. -/
+theorem regenerated_history_memory_safe (ops : List GOp) :
+    (ops.foldl gstep ctor).1.filled.toNat ≤ cap ∧ (ops.foldl gstep ctor).1.limit.toNat ≤ cap
+    ∧ EffsInside (ops.foldl gstep ctor).2 := by
+  have key : ∀ (ops : List GOp) (r : St × List Eff),
+      (r.1.filled.toNat ≤ cap ∧ r.1.limit.toNat ≤ cap ∧ EffsInside r.2) →
+      ((ops.foldl gstep r).1.filled.toNat ≤ cap ∧ (ops.foldl gstep r).1.limit.toNat ≤ cap ∧ EffsInside (ops.foldl gstep r).2) := by
+    intro ops
+    induction ops with
+    | nil => intro r h; exact h
+    | cons op ops ih => intro r h; exact ih (gstep r op) (gstep_safe r op h)
+  apply key
+  rw [gen_ctor_eq_model]
+  refine ⟨by decide, by decide, ?_⟩
+  intro e hmem
+  simp only [List.mem_cons, List.mem_nil_iff, or_false] at hmem
+  rcases hmem with rfl | rfl
+  · decide
+  · trivial
+
+/-- the machine-level operation a model operation stands for -/
+def BOp.toG : BOp → GOp
+  | .add s => .add (BitVec.ofNat 32 s.length)
+  | .setLimit n => .setLimit (BitVec.ofNat 64 n)
+  | .resetLimit => .resetLimit
+  | .clear => .clear
+
+/-- formatted pieces shorter than 2^31 bytes, limits that are `size_t` values -/
+def BOp.Small : BOp → Prop
+  | .add s => s.length < 2 ^ 31
+  | .setLimit n => n < 2 ^ 64
+  | _ => True
+
+theorem Buf.wf_step (b : Buf) (op : BOp) (h : b.WF) : (b.step op).WF := by
+  cases op with
+  | add s => exact Buf.wf_add b s h
+  | setLimit n => exact Buf.wf_setWriteLimit b n h
+  | resetLimit => exact Buf.wf_resetWriteLimit b h
+  | clear => exact Buf.wf_clear b h
+
+theorem gstep_tracks_model (b : Buf) (es : List Eff) (op : BOp) (h : b.WF) (hs : op.Small) :
+    (gstep (b.toSt, es) op.toG).1 = (b.step op).toSt := by
+  have hc : cap = 4095 := by decide
+  obtain ⟨h1, h2, _⟩ := h
+  cases op with
+  | add s => simp only [gstep, BOp.toG, Buf.step]; rw [gen_add_eq_model b s (by omega) (by omega) hs]
+  | setLimit n => simp only [gstep, BOp.toG, Buf.step]; rw [gen_setWriteLimit_eq_model b n hs]
+  | resetLimit => simp only [gstep, BOp.toG, Buf.step]; rw [gen_resetWriteLimit_eq_model]
+  | clear => simp only [gstep, BOp.toG, Buf.step]; rw [gen_clear_eq_model]
+
+/-- `regenerated_counters_track_model`: along every history the counters computed by the regenerated functions are
+    the counters of the hand-written buffer model (`Buf.step`), i.e. the model the theorems of section (B) are about
+    is what the source says at check time. -/
+theorem regenerated_counters_track_model (ops : List BOp) (hs : ∀ op ∈ ops, op.Small) :
+    ((ops.map BOp.toG).foldl gstep ctor).1 = (ops.foldl Buf.step Buf.init).toSt := by
+  have key : ∀ (ops : List BOp) (b : Buf) (es : List Eff), b.WF → (∀ op ∈ ops, op.Small) →
+      ((ops.map BOp.toG).foldl gstep (b.toSt, es)).1 = (ops.foldl Buf.step b).toSt := by
+    intro ops
+    induction ops with
+    | nil => intro b es _ _; rfl
+    | cons op ops ih =>
+      intro b es hw hsm
+      simp only [List.map_cons, List.foldl_cons]
+      have h1 := gstep_tracks_model b es op hw (hsm op (by simp))
+      have : gstep (b.toSt, es) op.toG = ((b.step op).toSt, (gstep (b.toSt, es) op.toG).2) := by
+        rw [← h1]
+      rw [this]
+      exact ih (b.step op) _ (Buf.wf_step b op hw) (fun o ho => hsm o (by simp [ho]))
+  rw [gen_ctor_eq_model]
+  exact key ops Buf.init _ Buf.wf_init hs
+
+/-! ### the report builder's bodies -/
+
+set_option maxRecDepth 100000 in
+/-- the limit argument computed by the regenerated `size_t` arithmetic of `startMemoryLeakReporting` (with the
+    `sizeof`s clang computed) is the one the model derives from the regenerated macro texts, does not wrap, and leaves
+    exactly the footer reserve -/
+theorem startLimitArg_eq : startLimitArg.toNat = listLimitArg ∧ startLimitArg.toNat = bufferLen - footerSizeWithMallocWarning := by
+  decide
+
+set_option maxRecDepth 100000 in
+/-- the three misuse entry points forward their message and exactly these arguments to `reportFailure` -/
+theorem misuse_forwarding :
+    nonAllocatedArgs = (msgNonAllocated, ["lit:<unknown>", "(unsigned long)int:0", "(unsigned long)int:0", "defaultAllocator()",
+                                          "freeFile", "freeLine", "freeAllocator", "reporter"])
+    ∧ mismatchArgs = (msgMismatch, ["node.file_", "node.line_", "node.size_", "node.allocator_",
+                                    "freeFile", "freeLineNumber", "freeAllocator", "reporter"])
+    ∧ corruptionArgs = (msgCorruption, ["node.file_", "node.line_", "node.size_", "node.allocator_",
+                                        "freeFile", "freeLineNumber", "freeAllocator", "reporter"]) := by
+  refine ⟨rfl, rfl, rfl⟩
+
+set_option maxRecDepth 100000
+/-- running the regenerated body of `stopMemoryLeakReporting` IS `OutBuf.stop` (proved by executing the regenerated
+    list, whatever the order of its independent statements) -/
+theorem gen_stop_eq_model (env : Env) (o : OutBuf) : (run env o stopMemoryLeakReporting).o = o.stop := by
+  unfold OutBuf.stop stopTail stopFooter
+  by_cases h0 : o.total = 0
+  · simp [stopMemoryLeakReporting, run, runStmt, stepSimple, runSimple, evalCond, call, h0, noLeaksFmt]
+  · by_cases hr : o.buf.reached <;> by_cases hm : o.mallocWarn <;>
+      simp [stopMemoryLeakReporting, run, runStmt, stepSimple, runSimple, evalCond, call, word, h0, hr, hm, footerLine, tooMuchText,
+            mallocWarningText, Buf.resetWriteLimit, tooMuchFmt, footerFmt, footerText, mallocWarningFmt]
+
+/-- running the regenerated body of `reportMemoryLeak` IS `OutBuf.reportLeak` -/
+theorem gen_reportLeak_eq_model (env : Env) (o : OutBuf) : (run env o reportMemoryLeak).o = o.reportLeak env.leak := by
+  unfold OutBuf.reportLeak
+  by_cases h0 : o.total = 0 <;> by_cases hn : env.leak.allocName == mallocName <;> by_cases hm : o.mallocWarn <;>
+    simp [reportMemoryLeak, run, runStmt, stepSimple, runSimple, evalCond, call, word, h0, hn, hm, leakText, headerText, headerFmt, leakFmt] <;>
+    simp_all [mallocName]
+
+/-- running the regenerated body of `reportFailure` IS `OutBuf.reportFailure`, and the text handed to the reporter
+    is the buffer's text afterwards -/
+theorem gen_reportFailure_eq_model (env : Env) (o : OutBuf) :
+    (run env o reportFailure).o = o.reportFailure env.misuse
+    ∧ (run env o reportFailure).failed = some (o.reportFailure env.misuse).buf.text := by
+  simp [reportFailure, run, runStmt, stepSimple, runSimple, call, word, OutBuf.reportFailure, allocLocationText, deallocLocationText,
+        render, renderOne, allocLocationFmt, deallocLocationFmt]
+
+/-- running the regenerated body of `startMemoryLeakReporting` IS `OutBuf.start` -/
+theorem gen_start_eq_model (env : Env) (o : OutBuf) : (run env o startMemoryLeakReporting).o = o.start := by
+  simp [startMemoryLeakReporting, run, runStmt, stepSimple, runSimple, call, OutBuf.start, startLimitArg_eq.1]
+
+theorem gen_obClear_eq_model (env : Env) (o : OutBuf) : (run env o obClear).o = o.clear := by
+  simp [obClear, run, runStmt, stepSimple, runSimple, call, OutBuf.clear]
+
+/-- one operation of a history executed by the regenerated bodies -/
+def codeStep (o : OutBuf) : Op → OutBuf
+  | .clear => (run default o obClear).o
+  | .start => (run default o startMemoryLeakReporting).o
+  | .leak l => (run { leak := l, misuse := default } o reportMemoryLeak).o
+  | .stop => (run default o stopMemoryLeakReporting).o
+  | .misuse m => (run { leak := default, misuse := m } o reportFailure).o
+
+theorem codeStep_eq_model (o : OutBuf) (op : Op) : codeStep o op = o.step op := by
+  cases op with
+  | clear => exact gen_obClear_eq_model _ o
+  | start => exact gen_start_eq_model _ o
+  | leak l => exact gen_reportLeak_eq_model _ o
+  | stop => exact gen_stop_eq_model _ o
+  | misuse m => exact (gen_reportFailure_eq_model _ o).1
+
+/-- `regenerated_run_eq_model`: a whole history executed by the regenerated bodies is the model's run -/
+theorem regenerated_run_eq_model (ops : List Op) (o : OutBuf) : ops.foldl codeStep o = o.run ops := by
+  have : codeStep = OutBuf.step := by funext o op; exact codeStep_eq_model o op
+  rw [this]; rfl
+
+/-- `buffer_invariant`, `history_memory_safe` stated for the regenerated code: for every history executed by the
+    statement lists regenerated from the source, the fill position and limit stay at most 4095, the text has
+    exactly `filled` bytes, and the real array stays terminated with the canary untouched. -/
+theorem buffer_invariant_regenerated (garbage : Bytes) (ops : List Op) :
+    (ops.foldl codeStep OutBuf.init).buf.filled ≤ bufferLen - 1
+    ∧ (ops.foldl codeStep OutBuf.init).buf.limit ≤ bufferLen - 1
+    ∧ (ops.foldl codeStep OutBuf.init).buf.text.length = (ops.foldl codeStep OutBuf.init).buf.filled
+    ∧ ∃ mb : MemBuf, mb.abs = (ops.foldl codeStep OutBuf.init).buf ∧ mb.mem[mb.filled]? = some 0 ∧ mb.filled < bufferLen
+        ∧ mb.mem.drop bufferLen = canary ∧ mb.overrun = false := by
+  rw [regenerated_run_eq_model]
+  obtain ⟨h1, h2, h3⟩ := buffer_invariant ops
+  exact ⟨h1, h2, h3, history_memory_safe garbage ops⟩
+
+/-- `report_total_true_when_cleared` / `notice_iff_entries_dropped` for the regenerated code: the report the
+    regenerated bodies assemble on a cleared buffer is the listing cut at the limit, the notice exactly when the
+    listing reached the limit, the complete true total, the malloc note when due. -/
+theorem report_total_true_regenerated (o : OutBuf) (leaks : List Leak)
+    (hf : o.buf.filled = 0) (ht : o.buf.text = []) (hn : leaks.length < 2147483648) :
+    (([Op.start] ++ leaks.map Op.leak ++ [Op.stop]).foldl codeStep o).buf.text = reportText leaks := by
+  rw [regenerated_run_eq_model, ← report_is_run]
+  exact report_total_true_when_cleared o leaks hf ht hn
+
+/-- non-vacuity: a history with a negative `vsnprintf` result, a huge limit and a result far larger than the buffer -/
+example : (([GOp.add (BitVec.ofNat 32 100), .add (-1#32), .setLimit (BitVec.ofNat 64 (2 ^ 64 - 1)), .add (BitVec.ofNat 32 2147483647),
+            .setLimit 5#64, .add 7#32, .clear].foldl gstep ctor).1) = { filled := 0#64, limit := 5#64 } := by decide
+example : (([GOp.add (BitVec.ofNat 32 100), .add (-1#32), .add (BitVec.ofNat 32 2147483647)].foldl gstep ctor).1).filled = 4095#64 := by decide
+example : BOp.Small (.add [1, 2, 3]) ∧ BOp.Small (.setLimit 4096) := by constructor <;> simp [BOp.Small]
+example : (run default OutBuf.init stopMemoryLeakReporting).done = true := by decide
+
+end Regenerated
+
+
+/-! ### the first-difference scans (regenerated from the clang AST of TestFailure.cpp) -/
+
+section RegeneratedScans
+open Gen.DiagFail Diag.Code
+
+theorem sext_beq (x y : BitVec 8) : ((x.signExtend 32) == (y.signExtend 32)) = (x == y) := by
+  by_cases h : x = y
+  · subst h; simp
+  · have : x.signExtend 32 ≠ y.signExtend 32 := by
+      intro he
+      apply h
+      apply BitVec.eq_of_toInt_eq
+      have h1 := BitVec.toInt_signExtend_of_le (x := x) (v := 32) (by omega)
+      have h2 := BitVec.toInt_signExtend_of_le (x := y) (v := 32) (by omega)
+      rw [← h1, ← h2, he]
+    rw [beq_eq_false_iff_ne.mpr this, beq_eq_false_iff_ne.mpr h]
+
+theorem zext_beq (x y : BitVec 8) : ((x.setWidth 32) == (y.setWidth 32)) = (x == y) := by
+  by_cases h : x = y
+  · subst h; simp
+  · have : x.setWidth 32 ≠ y.setWidth 32 := by
+      intro he
+      apply h
+      apply BitVec.eq_of_toNat_eq
+      have h1 := BitVec.toNat_setWidth_of_le (b := x) (w' := 32) (by omega)
+      have h2 := BitVec.toNat_setWidth_of_le (b := y) (w' := 32) (by omega)
+      rw [← h1, ← h2, he]
+    rw [beq_eq_false_iff_ne.mpr this, beq_eq_false_iff_ne.mpr h]
+
+theorem sext_bne (x y : BitVec 8) : ((x.signExtend 32) != (y.signExtend 32)) = (x != y) := by
+  simp only [bne, sext_beq]
+
+/-- `regenerated_scan_conditions`: the loop conditions of the six string scans, as clang typed them (chars promoted
+    to `int`), are exactly "the bytes agree (after `ToLower` in the no-case class) and the byte of the ACTUAL string
+    is not the terminator" — the condition `Diag.scan` is written with. -/
+theorem regenerated_scan_conditions (x y : UInt8) :
+    condOf stringEqualRawCond x y = decide (id x = id y ∧ x ≠ 0)
+    ∧ condOf stringEqualPrintableCond x y = decide (id x = id y ∧ x ≠ 0)
+    ∧ condOf checkEqualRawCond x y = decide (id x = id y ∧ x ≠ 0)
+    ∧ condOf checkEqualPrintableCond x y = decide (id x = id y ∧ x ≠ 0)
+    ∧ condOf stringEqualNoCaseRawCond x y = decide (toLower x = toLower y ∧ x ≠ 0)
+    ∧ condOf stringEqualNoCasePrintableCond x y = decide (toLower x = toLower y ∧ x ≠ 0) := by
+  refine ⟨?_, ?_, ?_, ?_, ?_, ?_⟩
+  · simp only [condOf, stringEqualRawCond, sext_beq, sext_bne, id]
+    by_cases h1 : x = y <;> by_cases h2 : x = 0 <;> simp_all [UInt8.eq_iff_toBitVec_eq]
+  · simp only [condOf, stringEqualPrintableCond, sext_beq, sext_bne, id]
+    by_cases h1 : x = y <;> by_cases h2 : x = 0 <;> simp_all [UInt8.eq_iff_toBitVec_eq]
+  · simp only [condOf, checkEqualRawCond, sext_beq, sext_bne, id]
+    by_cases h1 : x = y <;> by_cases h2 : x = 0 <;> simp_all [UInt8.eq_iff_toBitVec_eq]
+  · simp only [condOf, checkEqualPrintableCond, sext_beq, sext_bne, id]
+    by_cases h1 : x = y <;> by_cases h2 : x = 0 <;> simp_all [UInt8.eq_iff_toBitVec_eq]
+  · simp only [condOf, stringEqualNoCaseRawCond, sext_beq, sext_bne, lowerBV]
+    by_cases h1 : toLower x = toLower y <;> by_cases h2 : x = 0 <;> simp_all [UInt8.eq_iff_toBitVec_eq]
+  · simp only [condOf, stringEqualNoCasePrintableCond, sext_beq, sext_bne, lowerBV]
+    by_cases h1 : toLower x = toLower y <;> by_cases h2 : x = 0 <;> simp_all [UInt8.eq_iff_toBitVec_eq]
+
+/-- the regenerated condition of the binary scan: index below `size` first, then the two bytes equal -/
+theorem regenerated_binary_condition (x y : UInt8) (i size : Nat) (hi : i < 2 ^ 64) (hs : size < 2 ^ 64) :
+    binaryEqualCond x.toBitVec y.toBitVec (BitVec.ofNat 64 i) (BitVec.ofNat 64 size) = (decide (i < size) && decide (x = y)) := by
+  simp only [binaryEqualCond, zext_beq]
+  have : BitVec.ult (BitVec.ofNat 64 i) (BitVec.ofNat 64 size) = decide (i < size) := by
+    simp [BitVec.ult, BitVec.toNat_ofNat, Nat.mod_eq_of_lt hi, Nat.mod_eq_of_lt hs]
+  rw [this]
+  by_cases h : x = y <;> simp_all [UInt8.eq_iff_toBitVec_eq]
+
+/-- the window offset of the binary class, `failStart * 3 + 1` in `size_t` arithmetic, does not wrap for any array
+    that fits in memory, and the reported position is the scan result itself -/
+theorem regenerated_binary_offset (k : Nat) (hk : k * 3 + 1 < 2 ^ 64) :
+    (binaryEqualOffset (BitVec.ofNat 64 k)).toNat = k * 3 + 1 ∧ (binaryEqualReported (BitVec.ofNat 64 k)).toNat = k := by
+  have e3 : ((3#32).signExtend 64) = 3#64 := by decide
+  have e1 : ((1#32).signExtend 64) = 1#64 := by decide
+  simp only [binaryEqualOffset, binaryEqualReported, e3, e1, BitVec.toNat_add, BitVec.toNat_mul, BitVec.toNat_ofNat]
+  constructor
+  · rw [Nat.mod_eq_of_lt (show k < 2 ^ 64 by omega)]; simp; omega
+  · omega
+
+/-- which strings each scan reads (`x` = the one whose terminator ends the scan), which string the marker window is
+    cut from, and which index is the window offset / the reported position: as the model has them; and there are
+    exactly seven loops in the failure constructors -/
+theorem regenerated_scan_wiring :
+    stringEqualRawScan = ⟨.actual, .expected⟩ ∧ stringEqualPrintableScan = ⟨.printableActual, .printableExpected⟩
+    ∧ stringEqualNoCaseRawScan = ⟨.actual, .expected⟩ ∧ stringEqualNoCasePrintableScan = ⟨.printableActual, .printableExpected⟩
+    ∧ checkEqualRawScan = ⟨.actual, .expected⟩ ∧ checkEqualPrintableScan = ⟨.printableActual, .printableExpected⟩
+    ∧ binaryEqualScan = ⟨.actual, .expected⟩ ∧ binaryEqualWindowOf = .actualHex
+    ∧ stringEqualDiffCall = (.printableActual, .printable, .raw) ∧ stringEqualNoCaseDiffCall = (.printableActual, .printable, .raw)
+    ∧ checkEqualDiffCall = (.printableActual, .printable, .raw) ∧ loopCount = 7 := by decide
+
+theorem scanBy_eq_scan (f : UInt8 → UInt8) (c : UInt8 → UInt8 → Bool) (h : ∀ x y, c x y = decide (f x = f y ∧ x ≠ 0)) :
+    ∀ fuel A E i, scanBy c fuel A E i = scan f fuel A E i := by
+  intro fuel
+  induction fuel with
+  | zero => intro A E i; rfl
+  | succ n ih =>
+    intro A E i
+    simp only [scanBy, scan]
+    split <;> simp_all
+
+theorem scanBinBy_eq_scanBin (inRange : Nat → Nat → Bool) (same : UInt8 → UInt8 → Bool) (size : Nat)
+    (h1 : ∀ i, i ≤ size → inRange i size = decide (i < size)) (h2 : ∀ x y, same x y = decide (x = y)) :
+    ∀ fuel A E i, i ≤ size → scanBinBy inRange same fuel size A E i = scanBin fuel size A E i := by
+  intro fuel
+  induction fuel with
+  | zero => intro A E i _; rfl
+  | succ n ih =>
+    intro A E i hi
+    simp only [scanBinBy, scanBin, h1 i hi]
+    by_cases hlt : i < size
+    · simp only [hlt, decide_true, if_true]
+      have := ih A E (i + 1) (by omega)
+      split <;> simp_all
+    · simp [hlt]
+
+theorem stringScansBy_eq (f : UInt8 → UInt8) (c1 c2 : UInt8 → UInt8 → Bool)
+    (h1 : ∀ x y, c1 x y = decide (f x = f y ∧ x ≠ 0)) (h2 : ∀ x y, c2 x y = decide (f x = f y ∧ x ≠ 0)) (e a : Bytes) :
+    stringScansBy c1 c2 e a = stringScans f e a := by
+  unfold stringScansBy stringScans
+  rw [scanBy_eq_scan f c1 h1, scanBy_eq_scan f c2 h2]
+  generalize scan f (a.length + 1) (cstr a) (cstr e) 0 = r1
+  generalize scan f ((printable a).length + 1) (cstr (printable a)) (cstr (printable e)) 0 = r2
+  cases r1 <;> cases r2 <;> rfl
+
+/-- `scan_in_bounds` + `position_is_first_difference` for the scans AS REGENERATED from the source: for ALL operand
+    pairs (actual NUL-free) the two loops of `StringEqualFailure`, `CheckEqualFailure` and `StringEqualNoCaseFailure`,
+    run with the loop conditions clang sees, stay inside the operands and return the first differing indices. -/
+theorem regenerated_scans_in_bounds (e a : Bytes) (ha : NulFree a) :
+    stringScansBy (condOf stringEqualRawCond) (condOf stringEqualPrintableCond) e a
+      = .ok (firstDiff a e, firstDiff (DiagSpec.printable a) (DiagSpec.printable e))
+    ∧ stringScansBy (condOf checkEqualRawCond) (condOf checkEqualPrintableCond) e a
+      = .ok (firstDiff a e, firstDiff (DiagSpec.printable a) (DiagSpec.printable e))
+    ∧ stringScansBy (condOf stringEqualNoCaseRawCond) (condOf stringEqualNoCasePrintableCond) e a
+      = .ok (firstDiffBy Text.lowerByte a e, firstDiffBy Text.lowerByte (DiagSpec.printable a) (DiagSpec.printable e)) := by
+  refine ⟨?_, ?_, ?_⟩
+  · rw [stringScansBy_eq id _ _ (fun x y => (regenerated_scan_conditions x y).1) (fun x y => (regenerated_scan_conditions x y).2.1)]
+    exact scan_in_bounds_strings e a ha
+  · rw [stringScansBy_eq id _ _ (fun x y => (regenerated_scan_conditions x y).2.2.1) (fun x y => (regenerated_scan_conditions x y).2.2.2.1)]
+    exact scan_in_bounds_strings e a ha
+  · rw [stringScansBy_eq toLower _ _ (fun x y => (regenerated_scan_conditions x y).2.2.2.2.1) (fun x y => (regenerated_scan_conditions x y).2.2.2.2.2)]
+    exact scan_in_bounds_strings_nocase e a ha
+
+/-- the binary scan as regenerated (`binInRange`, `binSame` = the two conjuncts of the regenerated condition): for
+    arrays of at least `size` bytes it stops at the first differing index below `size`, or at `size`, without reading
+    outside -/
+theorem regenerated_binary_scan_in_bounds (size : Nat) (e a : Bytes) (ha : size ≤ a.length) (he : size ≤ e.length)
+    (hs : size < 2 ^ 64) :
+    scanBinBy binInRange binSame (size + 1) size a e 0 = .ok (firstDiffBin size a e) := by
+  rw [scanBinBy_eq_scanBin binInRange binSame size _ _ (size + 1) a e 0 (by omega)]
+  · exact scan_in_bounds_binary size e a ha he
+  · intro i hi
+    have := regenerated_binary_condition 0 0 i size (by omega) hs
+    simpa [binInRange] using this
+  · intro x y
+    have := regenerated_binary_condition x y 0 1 (by omega) (by omega)
+    simpa [binSame] using this
+
+example : stringScansBy (condOf stringEqualRawCond) (condOf stringEqualPrintableCond) [92, 110] [10]
+    = .ok (firstDiff [10] [92, 110], firstDiff (DiagSpec.printable [10]) (DiagSpec.printable [92, 110])) :=
+  (regenerated_scans_in_bounds _ _ (by decide)).1
+example : condOf stringEqualNoCaseRawCond 65 97 = true ∧ condOf stringEqualRawCond 65 97 = false := by decide
+
+end RegeneratedScans
 
 end Diag
